@@ -1,4 +1,224 @@
-(** C08 — property theorems (statements + [exact] + [Print Assumptions] only). *)
+(** C08 — property theorems (statements + [exact] + [Print Assumptions] only). The write path under a failing write-ahead log append ([model/Faults.v]): errors are reported and sticky, acknowledged writes are visible and recovered, the failed write is recovered wholly or not at all, sequence numbers stay fresh. *)
+From Coq Require Import Arith List NArith Bool.
 From RainVerif Require Import Params.
-From RainVerif.model Require Import Bytes Key.
+From RainVerif.model Require Import Bytes Key Block Crc Log LogScript Version Lsm DbSpec Codec WalModel Faults.
+From RainVerif.proofs Require Import KeyProofs GetProofs LogProofs CodecProofs WalProofs FaultsProofs.
+Import ListNotations.
 Open Scope N_scope.
+
+(** * T1: errors are reported and sticky (no side condition) *)
+
+Theorem C08_T1_results : forall ws : list (list wop * fault),
+  snd (f_run f_init ws) =
+  repeat WOk (first_fault ws) ++ repeat WErr (length ws - first_fault ws).
+Proof. exact faults_results. Qed.
+Print Assumptions C08_T1_results.
+
+Theorem C08_T1_result_nth : forall (ws : list (list wop * fault)) (j : nat),
+  (j < length ws)%nat ->
+  nth_error (snd (f_run f_init ws)) j = Some (if (j <? first_fault ws)%nat then WOk else WErr).
+Proof. exact faults_result_nth. Qed.
+Print Assumptions C08_T1_result_nth.
+
+Theorem C08_T1_sticky : forall (ws : list (list wop * fault)) (j : nat),
+  (first_fault ws < j)%nat ->
+  fst (f_run f_init (firstn j ws)) = fst (f_run f_init (firstn (S (first_fault ws)) ws)).
+Proof. exact faults_sticky. Qed.
+Print Assumptions C08_T1_sticky.
+
+Theorem C08_T1_sticky_wal_mem : forall (ws : list (list wop * fault)) (j : nat),
+  (first_fault ws < j)%nat ->
+  f_wal (fst (f_run f_init (firstn j ws))) = f_wal (fst (f_run f_init (firstn (S (first_fault ws)) ws))) /\
+  f_mem (fst (f_run f_init (firstn j ws))) = f_mem (fst (f_run f_init (firstn (S (first_fault ws)) ws))).
+Proof. exact faults_sticky_wal_mem. Qed.
+Print Assumptions C08_T1_sticky_wal_mem.
+
+(** * T2: acknowledged writes are visible (no side condition) *)
+
+Theorem C08_T2_mem_acked : forall ws : list (list wop * fault),
+  f_mem (fst (f_run f_init ws)) = acked 0 ws false.
+Proof. exact faults_mem_acked. Qed.
+Print Assumptions C08_T2_mem_acked.
+
+Theorem C08_T2_contents_acked : forall ws : list (list wop * fault),
+  f_contents (fst (f_run f_init ws)) = replay [] (acked 0 ws false).
+Proof. exact faults_contents_acked. Qed.
+Print Assumptions C08_T2_contents_acked.
+
+Theorem C08_T2_prefix_acked : forall (ws : list (list wop * fault)) (j : nat),
+  f_mem (fst (f_run f_init (firstn j ws))) = acked 0 (firstn j ws) false /\
+  f_contents (fst (f_run f_init (firstn j ws))) = replay [] (acked 0 (firstn j ws) false) /\
+  acked 0 (firstn j ws) false = firstn j (acked 0 ws false).
+Proof. exact faults_prefix_acked. Qed.
+Print Assumptions C08_T2_prefix_acked.
+
+Theorem C08_T2_ok_write_applied :
+  forall (ws : list (list wop * fault)) (j : nat) (ops : list wop) (f : fault),
+  nth_error ws j = Some (ops, f) ->
+  nth_error (snd (f_run f_init ws)) j = Some WOk ->
+  f_contents (fst (f_run f_init (firstn (S j) ws))) =
+  map_apply (f_contents (fst (f_run f_init (firstn j ws)))) ops.
+Proof. exact faults_ok_write_applied. Qed.
+Print Assumptions C08_T2_ok_write_applied.
+
+Theorem C08_T2_read_after_ok_write :
+  forall (ws : list (list wop * fault)) (j : nat) (pre : list wop) (k v : bytes) (f : fault),
+  nth_error ws j = Some (pre ++ [WPut k v], f) ->
+  nth_error (snd (f_run f_init ws)) j = Some WOk ->
+  map_get k (f_contents (fst (f_run f_init (firstn (S j) ws)))) = Some v.
+Proof. exact faults_read_after_ok_write. Qed.
+Print Assumptions C08_T2_read_after_ok_write.
+
+Theorem C08_T2_read_after_ok_delete :
+  forall (ws : list (list wop * fault)) (j : nat) (pre : list wop) (k : bytes) (f : fault),
+  nth_error ws j = Some (pre ++ [WDel k], f) ->
+  nth_error (snd (f_run f_init ws)) j = Some WOk ->
+  map_get k (f_contents (fst (f_run f_init (firstn (S j) ws)))) = None.
+Proof. exact faults_read_after_ok_delete. Qed.
+Print Assumptions C08_T2_read_after_ok_delete.
+
+(** * T3: after the fault is gone and the database is reopened *)
+
+Theorem C08_T3_reopen : forall ws : list (list wop * fault),
+  ws_ok ws = true ->
+  f_reopen (fst (f_run f_init ws)) = Some (replay [] (acked 0 ws false ++ f_extra f_init ws)).
+Proof. exact faults_reopen. Qed.
+Print Assumptions C08_T3_reopen.
+
+(** the non-emptiness of the batches is not needed *)
+Theorem C08_T3_reopen_enc : forall ws : list (list wop * fault),
+  ws_enc_from 0 ws = true ->
+  f_reopen (fst (f_run f_init ws)) = Some (replay [] (acked 0 ws false ++ f_extra f_init ws)).
+Proof. exact faults_reopen_enc. Qed.
+Print Assumptions C08_T3_reopen_enc.
+
+Theorem C08_T3_reopen_contents : forall ws : list (list wop * fault),
+  ws_ok ws = true ->
+  f_reopen (fst (f_run f_init ws)) =
+  Some (replay (f_contents (fst (f_run f_init ws))) (f_extra f_init ws)).
+Proof. exact faults_reopen_contents. Qed.
+Print Assumptions C08_T3_reopen_contents.
+
+(** [f_extra] is the failed batch iff [n] covers its whole emission, and empty otherwise *)
+Theorem C08_T3_extra_exact :
+  forall (pre : list (list wop * fault)) (ops : list wop) (n : nat) (post : list (list wop * fault)),
+  first_fault pre = length pre ->
+  let s0 := fst (f_run f_init pre) in
+  let b : batch := (f_seq s0 + 1, ops) in
+  let em := log_append (f_boff s0) (batch_bytes b) in
+  f_extra f_init (pre ++ (ops, FailAfter n) :: post) =
+    (if (length (fst em) <=? n)%nat then [b] else []) /\
+  (f_extra f_init (pre ++ (ops, FailAfter n) :: post) = [b] <-> (length (fst em) <= n)%nat) /\
+  (f_extra f_init (pre ++ (ops, FailAfter n) :: post) = [] <-> (n < length (fst em))%nat).
+Proof. exact faults_extra_exact. Qed.
+Print Assumptions C08_T3_extra_exact.
+
+Theorem C08_T3_reopen_cases : forall ws : list (list wop * fault),
+  ws_ok ws = true ->
+  (first_fault ws = length ws /\
+   f_reopen (fst (f_run f_init ws)) = Some (replay [] (acked 0 ws false)))
+  \/
+  (exists pre ops n post,
+     ws = pre ++ (ops, FailAfter n) :: post /\ first_fault pre = length pre /\
+     let s0 := fst (f_run f_init pre) in
+     let b : batch := (f_seq s0 + 1, ops) in
+     let em := log_append (f_boff s0) (batch_bytes b) in
+     ((length (fst em) <= n)%nat ->
+        f_reopen (fst (f_run f_init ws)) = Some (replay [] (acked 0 ws false ++ [b]))) /\
+     ((n < length (fst em))%nat ->
+        f_reopen (fst (f_run f_init ws)) = Some (replay [] (acked 0 ws false)))).
+Proof. exact faults_reopen_cases. Qed.
+Print Assumptions C08_T3_reopen_cases.
+
+Theorem C08_T3_acked_recovered : forall ws : list (list wop * fault),
+  ws_ok ws = true ->
+  exists bs, wal_recover (f_wal (fst (f_run f_init ws))) = Some bs /\
+             firstn (length (acked 0 ws false)) bs = acked 0 ws false /\
+             (forall b, In b (acked 0 ws false) -> In b bs).
+Proof. exact faults_acked_recovered. Qed.
+Print Assumptions C08_T3_acked_recovered.
+
+(** * T4: sequence numbers *)
+
+Theorem C08_T4_seq : forall (ws : list (list wop * fault)) (bs : list batch),
+  ws_ok ws = true ->
+  wal_recover (f_wal (fst (f_run f_init ws))) = Some bs ->
+  let s := fst (f_run f_init ws) in
+  f_seq s = total_ops (attempted 0 ws) /\
+  batches_chained 0 bs = true /\
+  recovered_last_seq bs = total_ops bs /\
+  recovered_last_seq bs <= f_seq s /\
+  (forall b, In b bs -> fst b + N.of_nat (length (snd b)) - 1 <= f_seq s) /\
+  (forall ops, batches_chained 0 (bs ++ [(recovered_last_seq bs + 1, ops)]) = true).
+Proof. exact faults_seq. Qed.
+Print Assumptions C08_T4_seq.
+
+(** * T5: examples. [ex_ws n] = three writes, the second (24 bytes of emission) faulted after
+    [n] bytes. *)
+
+Example C08_ex_ws_ok : forall n, ws_ok (ex_ws n) = true.
+Proof. exact ex_ws_ok. Qed.
+
+Example C08_ex_run_results : forall n,
+  let s := fst (f_run f_init (ex_ws n)) in
+  snd (f_run f_init (ex_ws n)) = [WOk; WErr; WErr] /\
+  f_mem s = [(1, ex_ops1)] /\ f_contents s = [([1], [10])] /\ f_seq s = 3 /\ f_bad s = true.
+Proof. exact ex_run_results. Qed.
+
+Example C08_ex_fault_0 :
+  let s := fst (f_run f_init (ex_ws 0)) in
+  length (f_wal s) = 21%nat /\ f_reopen s = Some [([1], [10])] /\ f_extra f_init (ex_ws 0) = [].
+Proof. exact ex_fault_0. Qed.
+
+Example C08_ex_fault_5 :
+  let s := fst (f_run f_init (ex_ws 5)) in
+  length (f_wal s) = 26%nat /\ f_reopen s = Some [([1], [10])] /\ f_extra f_init (ex_ws 5) = [].
+Proof. exact ex_fault_5. Qed.
+
+Example C08_ex_fault_23 :
+  let s := fst (f_run f_init (ex_ws 23)) in
+  length (f_wal s) = 44%nat /\ f_reopen s = Some [([1], [10])] /\ f_extra f_init (ex_ws 23) = [].
+Proof. exact ex_fault_23. Qed.
+
+Example C08_ex_fault_24 :
+  let s := fst (f_run f_init (ex_ws 24)) in
+  length (f_wal s) = 45%nat /\ f_reopen s = Some [([2], [20])] /\
+  f_extra f_init (ex_ws 24) = [(2, ex_ops2)].
+Proof. exact ex_fault_24. Qed.
+
+Example C08_ex_fault_1000 :
+  let s := fst (f_run f_init (ex_ws 1000)) in
+  length (f_wal s) = 45%nat /\ f_reopen s = Some [([2], [20])] /\
+  f_extra f_init (ex_ws 1000) = [(2, ex_ops2)].
+Proof. exact ex_fault_1000. Qed.
+
+Example C08_ex_no_fault :
+  let ws := [(ex_ops1, NoFault); (ex_ops2, NoFault); (ex_ops3, NoFault)] in
+  let s := fst (f_run f_init ws) in
+  snd (f_run f_init ws) = [WOk; WOk; WOk] /\
+  f_contents s = [([2], [20]); ([3], [30])] /\ f_reopen s = Some [([2], [20]); ([3], [30])] /\
+  f_seq s = 4.
+Proof. exact ex_no_fault. Qed.
+
+(** an emission of two fragments: the complete first fragment alone is not recovered *)
+Example C08_ex_big_first_fragment :
+  let s := fst (f_run f_init (ex_big_ws 32747)) in
+  blen (f_wal s) = 32768 /\ f_reopen s = Some [([1], [10])].
+Proof. exact ex_big_first_fragment. Qed.
+
+Example C08_ex_big_all_but_one :
+  let s := fst (f_run f_init (ex_big_ws 33028)) in
+  blen (f_wal s) = 33049 /\ f_reopen s = Some [([1], [10])].
+Proof. exact ex_big_all_but_one. Qed.
+
+Example C08_ex_big_all :
+  let s := fst (f_run f_init (ex_big_ws 33029)) in
+  blen (f_wal s) = 33050 /\
+  option_map (map (fun e : kv => (fst e, blen (snd e)))) (f_reopen s) = Some [([1], 1); ([2], 33000)].
+Proof. exact ex_big_all. Qed.
+
+(** the published sequence number may exceed what a reopen computes *)
+Example C08_ex_seq_gap :
+  let s := fst (f_run f_init (ex_ws 0)) in
+  f_seq s = 3 /\ option_map recovered_last_seq (wal_recover (f_wal s)) = Some 1.
+Proof. exact ex_seq_gap. Qed.
